@@ -13,7 +13,33 @@ import time
 
 HERE = os.path.dirname(os.path.abspath(__file__))
 VERIF = os.path.dirname(HERE)
-TARGET = os.path.join(VERIF, "build", "replay_target")
+REPO = os.environ.get("FLOUNDER_REPO", "/repo")
+
+
+def _alt_tag():
+    import hashlib
+    return "" if REPO == "/repo" else "_alt_" + hashlib.sha1(REPO.encode()).hexdigest()[:8]
+
+
+def crate_dir(name):
+    """the replay / kani crate. They include the engine sources by #[path = "/repo/src/.."]; when the driver is pointed at another
+    tree (FLOUNDER_REPO, developer use only: seeded changes are tried on a scratch worktree while /repo stays untouched) a copy
+    of the crate with that path substituted is generated under build/."""
+    src = os.path.join(VERIF, name)
+    if REPO == "/repo":
+        return src
+    import shutil
+    dst = os.path.join(VERIF, "build", name + _alt_tag())
+    if os.path.exists(dst):
+        shutil.rmtree(dst)
+    shutil.copytree(src, dst, ignore=shutil.ignore_patterns("target"))
+    mp = os.path.join(dst, "src", "main.rs")
+    txt = open(mp).read().replace('"/repo/src/', '"%s/src/' % REPO)
+    open(mp, "w").write(txt)
+    return dst
+
+
+TARGET = os.path.join(VERIF, "build", "replay_target" + _alt_tag())
 BIN = os.path.join(TARGET, "release", "flounder_replay")
 
 # property -> list of (command, args for quick use, args for thorough use)
@@ -32,7 +58,7 @@ NATIVE = {
     "C07": [("overrun", [], [])],
     "C05": [("minimax", ["--walks=300", "--depth=3"], ["--walks=3000", "--depth=3"])],
     "C08": [("mate-in-one", ["--walks=15"], ["--walks=300"])],
-    "C13": [("newgame", ["--positions=8", "--depth=3"], ["--positions=150", "--depth=5"])],
+    "C13": [("newgame", ["--positions=8", "--depth=3", "--long=8", "--longdepth=6"], ["--positions=150", "--depth=5", "--long=8", "--longdepth=6"])],
     "C09": [("game-history", ["--games=40", "--plies=20"], ["--games=400", "--plies=40"])],
     "C16": [("uci-process", ["--sessions=40"], ["--sessions=400", "--lines=30"])],
     "C04": [("position-cmd", ["--games=60", "--plies=24"], ["--games=600", "--plies=60"]), ("to-algebraic", [], [])],
@@ -61,14 +87,14 @@ def run_kani(pid, tier="quick"):
     todo = list(KANI.get(pid, [])) + (list(KANI_THOROUGH.get(pid, [])) if tier == "thorough" else [])
     if not todo:
         return out, viol
-    kdir = os.path.join(VERIF, "kani")
+    kdir = crate_dir("kani")
     lock = os.path.join(os.environ.get("FLOUNDER_REPO", "/repo"), "Cargo.lock")
     try:
         import shutil
         shutil.copy(lock, os.path.join(kdir, "Cargo.lock"))
     except OSError:
         pass
-    env = dict(os.environ, CARGO_NET_OFFLINE="true", CARGO_TARGET_DIR=os.path.join(VERIF, "build", "kani_target"), RUSTFLAGS="--cfg flounder_verif")
+    env = dict(os.environ, CARGO_NET_OFFLINE="true", CARGO_TARGET_DIR=os.path.join(VERIF, "build", "kani_target" + _alt_tag()), RUSTFLAGS="--cfg flounder_verif")
     for name, what in todo:
         t0 = time.time()
         try:
@@ -97,7 +123,7 @@ def build():
     env = dict(os.environ, CARGO_NET_OFFLINE="true", CARGO_TARGET_DIR=TARGET)
     lock_src = os.path.join(os.environ.get("FLOUNDER_REPO", "/repo"), "Cargo.lock")
     try:
-        p = subprocess.run(["cargo", "build", "--release", "--offline"], cwd=os.path.join(VERIF, "replay"), env=env,
+        p = subprocess.run(["cargo", "build", "--release", "--offline"], cwd=crate_dir("replay"), env=env,
                            stdout=subprocess.PIPE, stderr=subprocess.STDOUT, text=True, timeout=900)
         _built["ok"] = p.returncode == 0 and os.path.exists(BIN)
         _built["log"] = p.stdout[-3000:]
